@@ -19,6 +19,7 @@ pub(crate) mod prng;
 mod c01;
 mod c05;
 mod c10;
+mod c13;
 mod c14;
 mod c15;
 mod sysop;
@@ -48,6 +49,7 @@ fn verif_entry() {
         "c01" => c01::run(seed, n, &mut out),
         "c05" => c05::run(seed, n, &mut out),
         "c10" => c10::run(seed, n, &mut out),
+        "c13" => c13::run(seed, n, &mut out),
         "c14" => c14::run(seed, n, &mut out),
         "c15" => c15::run(seed, n, &mut out),
         "sys" => sysop::run(seed, n, &mut out),
